@@ -97,12 +97,64 @@ def gen_history(rnd: random.Random, hid: int) -> dict:
             stmt = f"{rnd.choice(['set', 'SET', 'Set'])} {spell(name, rnd)} = {written}"
             ops.append({"op": "s", "conn": i, "cur": cur, "name": name.upper(), "kind": kind, "sql": stmt})
             spec[i][name.upper()] = val
-        elif r < 0.5:
+        elif r < 0.47:
             name = rnd.choice(defined)
             ops.append({"op": "u", "conn": i, "cur": cur, "name": name, "sql": f"{rnd.choice(['unset', 'UNSET'])} {spell(name.lower(), rnd)}"})
             del spec[i][name]
+        elif r < 0.53:
+            # SET through a bound parameter: the only way a value can legally contain `$word` text — it must be kept verbatim
+            name = rnd.choice(pool)
+            n2 = rnd.choice(list(spec[i]) + [n for e in spec for n in e] + UNDEF)
+            val = rnd.choice(["price in ${}", "${}", "a ${} b", "${}10", "100 ${}s"]).format(spell(n2.lower(), rnd))
+            ops.append({"op": "s", "conn": i, "cur": cur, "name": name.upper(), "kind": "S:" + enc_str(val), "sql": f"set {spell(name, rnd)} = %s", "params": [val]})
+            spec[i][name.upper()] = val
+        elif r < 0.6:
+            nums = [n for n, v in spec[i].items() if isinstance(v, (int, decimal.Decimal)) and not isinstance(v, bool)]
+            if nums and rnd.random() < 0.5:
+                # executemany of a command that SETs the variable it references: every row sees the SET of the row before
+                name = rnd.choice(nums)
+                rows = [rnd.randint(1, 9) for _ in range(rnd.randint(2, 3))]
+                o = rnd.choice(["+", "*"])
+                ref = "$" + spell(name.lower(), rnd)
+                sql = f"SET {name} = {ref} {o} %s"
+                models = []
+                for k in rows:
+                    models.append(",".join(["s", str(i), enc_str(name), "X:" + enc_str(f"{ref} {o} {k}"), enc_str(sql)]))
+                    spec[i][name] = spec[i][name] + k if o == "+" else spec[i][name] * k
+                ops.append({"op": "m", "conn": i, "cur": cur, "sql": sql, "rows": [[k] for k in rows], "models": models, "want": "status"})
+                ops.append({"op": "q", "conn": i, "cur": cur, "sql": f"select ${name.lower()}", "expect": [[canon(spec[i][name])]], "err": None, "lit": False,
+                            "undef_item": None, "recipe": [("ref", name, None, f"${name.lower()}")]})
+            else:
+                # executemany of an INSERT that references a variable, with bound values containing `$name`
+                cand = [n for n, v in spec[i].items() if (isinstance(v, int) and not isinstance(v, bool)) or (isinstance(v, str) and "%" not in v and "\x00" not in v)]
+                if cand:
+                    var = rnd.choice(cand)
+                    wexpr, wval = "$" + spell(var.lower(), rnd), (spec[i][var] if isinstance(spec[i][var], str) else str(spec[i][var]))
+                else:
+                    wexpr, wval = "'k'", "k"
+                ids = [(hid % 100000) * 100 + len(ops) * 4 + k for k in range(rnd.randint(2, 3))]
+                vals = []
+                for _ in ids:
+                    n2 = rnd.choice(list(spec[i]) + [n for e in spec for n in e] + UNDEF)
+                    vals.append(rnd.choice(["costs ${}", "${}", "plain", "'${}'", "${}10"]).format(spell(n2.lower(), rnd)))
+                sql = f"insert into tm (id, v, w) values (%s, %s, {wexpr})"
+                models = [",".join(["b", str(i), enc_str(sql), "N:" + enc_str(str(k)) + "+S:" + enc_str(v)]) for k, v in zip(ids, vals)]
+                ops.append({"op": "m", "conn": i, "cur": cur, "sql": sql, "rows": [[k, v] for k, v in zip(ids, vals)], "models": models, "want": "insert"})
+                ops.append({"op": "q", "conn": i, "cur": cur, "sql": f"select id, v, w from tm where id >= {ids[0]} and id <= {ids[-1]} order by id",
+                            "expect": [[("int", k), ("str", v), ("str", wval)] for k, v in zip(ids, vals)], "err": None, "lit": False, "undef_item": None, "recipe": []})
         else:
             ops.append(gen_query(rnd, i, cur, spec[i], pool, all_names=[n for e in spec for n in e]))
+            if rnd.random() < 0.5:
+                # the same text, byte for byte, on the other connection right away (no SET/UNSET in between): each connection
+                # must see its own variables — or the undefined-variable error
+                j = (i + 1) % nconn
+                m = mirror(ops[-1], j, rnd.randrange(2), spec[j])
+                if m is not None:
+                    ops.append(m)
+                    if rnd.random() < 0.3:
+                        back = mirror(ops[-2], i, rnd.randrange(2), spec[i])
+                        if back is not None:
+                            ops.append(back)
     return {"id": hid, "nconn": nconn, "ops": ops}
 
 
@@ -110,6 +162,7 @@ def gen_query(rnd, i, cur, env: dict, pool, all_names=()) -> dict:
     items, expect, err, lit, undef_item = [], [], None, False, None
     bound = rnd.random() < 0.3          # a statement with pyformat-bound parameters
     params, wires = [], []
+    recipe = []                         # how to recompute the expectation for another connection's variables (mirror ops)
     for _ in range(rnd.randint(1, 3)):
         k = rnd.random()
         if bound and k < 0.45:
@@ -124,6 +177,7 @@ def gen_query(rnd, i, cur, env: dict, pool, all_names=()) -> dict:
             params.append(val)
             wires.append(("S:" + enc_str(val)) if isinstance(val, str) else ("N:" + enc_str(repr(val))))
             expect.append(canon(val))
+            recipe.append(("const", canon(val)))
             continue
         defined = list(env)
         if k < 0.5 and defined:
@@ -133,36 +187,43 @@ def gen_query(rnd, i, cur, env: dict, pool, all_names=()) -> dict:
             if isinstance(v, str) or rnd.random() < 0.4:
                 items.append(rnd.choice([ref, f"({ref})", f" {ref} "]))
                 expect.append(canon(v))
+                recipe.append(("ref", n, None, items[-1]))
             else:
                 form = rnd.choice(["{} * 2", "3-{}", "10 - {} - 1", "{}+1"])
                 items.append(form.format(ref))
                 expect.append(canon(eval(form.format(f"({v!r})"), {"Decimal": decimal.Decimal})))  # noqa: S307
+                recipe.append(("ref", n, form, items[-1]))
         elif k < 0.6:
             # an undefined name, or a defined one of another connection / a longer or shorter neighbour
             cand = [u for u in UNDEF + [p + "0" for p in pool] + [p[:-1] for p in pool if len(p) > 1] + pool if u.upper() not in env]
             n = rnd.choice(cand)
             items.append("$" + spell(n, rnd))
             expect.append(None)
+            recipe.append(("ref", n.upper(), None, items[-1]))
             if err is None:
                 err, undef_item = n.upper(), items[-1]
         elif k < 0.7:
             n = rnd.choice(pool)
             items.append(f"$${n}$$")          # a `$$` string, not a reference
             expect.append(("str", n))
+            recipe.append(("const", ("str", n)))
         elif k < 0.8:
             s = rnd.choice(["a$", "$ b", "$$", "$", "a$ $", "$-1", "x$$"] + ([] if bound else ["100%"]))
             items.append(f"'{s}'")
             expect.append(("str", s))
+            recipe.append(("const", ("str", s)))
         elif k < 0.9:
             # `$word` inside a literal: not a reference (finding region)
             n = rnd.choice(list(env) + ["5", "nope"])
             s = rnd.choice(["costs ${}", "${}", "a ${} b"]).format(spell(n.lower(), rnd))
             items.append(f"'{s}'")
             expect.append(("str", s))
+            recipe.append(("const", ("str", s)))
             lit = True
         else:
             items.append(rnd.choice(["1", "'x'", "null", "1.5"]))
             expect.append({"1": ("int", 1), "'x'": ("str", "x"), "null": ("null",), "1.5": ("flt", 1.5)}[items[-1]])
+            recipe.append(("const", expect[-1]))
     sql = "select " + ", ".join(items)
     k = rnd.random()
     if k < 0.1:
@@ -173,8 +234,34 @@ def gen_query(rnd, i, cur, env: dict, pool, all_names=()) -> dict:
         sql += rnd.choice([";", " ;", "\n", " -- tail", " /* c */"])
     if bound and params:
         return {"op": "b", "conn": i, "cur": cur, "sql": sql, "expect": None if err else [expect], "err": err, "lit": lit, "undef_item": undef_item,
-                "params": params, "wires": wires}
-    return {"op": "q", "conn": i, "cur": cur, "sql": sql, "expect": None if err else [expect], "err": err, "lit": lit, "undef_item": undef_item}
+                "params": params, "wires": wires, "recipe": recipe}
+    return {"op": "q", "conn": i, "cur": cur, "sql": sql, "expect": None if err else [expect], "err": err, "lit": lit, "undef_item": undef_item,
+            "recipe": recipe}
+
+
+def mirror(op: dict, j: int, cur: int, env: dict) -> dict | None:
+    """the byte-identical statement on another connection: what it must give there (that connection's variables)"""
+    expect, err, undef_item = [], None, None
+    for r in op["recipe"]:
+        if r[0] == "const":
+            expect.append(r[1])
+            continue
+        _, name, form, item = r
+        if name not in env:
+            expect.append(None)
+            if err is None:
+                err, undef_item = name, item.strip().strip("()")
+            continue
+        v = env[name]
+        if form is None:
+            expect.append(canon(v))
+        elif isinstance(v, str):
+            return None          # arithmetic on a string-valued variable: not a case of this property
+        else:
+            expect.append(canon(eval(form.format(f"({v!r})"), {"Decimal": decimal.Decimal})))  # noqa: S307
+    m = dict(op)
+    m.update({"conn": j, "cur": cur, "expect": None if err else [expect], "err": err, "undef_item": undef_item, "mirror": True})
+    return m
 
 
 # ------------------------------------------------------------------------------------------------
@@ -183,7 +270,9 @@ def _lines(hists):
     for h in hists:
         ops = []
         for o in h["ops"]:
-            if o["op"] == "s":
+            if o["op"] == "m":
+                ops.extend(o["models"])
+            elif o["op"] == "s":
                 ops.append(",".join(["s", str(o["conn"]), enc_str(o["name"]), o["kind"], enc_str(o["sql"])]))
             elif o["op"] == "u":
                 ops.append(",".join(["u", str(o["conn"]), enc_str(o["name"])]))
@@ -198,9 +287,16 @@ def _lines(hists):
 def _attach(hists, replies):
     for h, rep in zip(hists, replies):
         obs = dec_list(rep["obs"])
-        if len(obs) != len(h["ops"]) or "bad" in obs:
+        if len(obs) != sum(len(o["models"]) if o["op"] == "m" else 1 for o in h["ops"]) or "bad" in obs:
             raise common.Infra(f"model rejected history {h['id']}: {rep['_raw'][:300]}")
-        for o, ob in zip(h["ops"], obs):
+        it = iter(obs)
+        pairs = []
+        for o in h["ops"]:
+            if o["op"] == "m":
+                o["m_obs"] = [next(it) for _ in o["models"]]
+            else:
+                pairs.append((o, next(it)))
+        for o, ob in pairs:
             parts = ob.split("|")
             body, lit = parts[0], parts[1] if len(parts) > 1 else "0"
             o["m_lit"] = lit == "1"
@@ -244,19 +340,26 @@ def _worker(hists):
             twin = sc.connect(database="d", schema="s")
             curs = [[c.cursor(), c.cursor()] for c in conns]
             twin.cursor().execute("create or replace table t (id int)")
+            twin.cursor().execute("create or replace table tm (id int, v varchar, w varchar)")
             res = []
             for o in h["ops"]:
                 cur = curs[o["conn"]][o["cur"]]
-                if o["op"] in ("s", "u"):
-                    r = _outcome(lambda: _select(cur, o["sql"]))
+                if o["op"] == "m":
+                    def many(cur=cur, o=o):
+                        cur.executemany(o["sql"], [tuple(r) for r in o["rows"]])
+                        return ("rows", [[canon(c) for c in r] for r in cur.fetchall()])
+                    res.append({"real": _outcome(many)})
+                elif o["op"] in ("s", "u"):
+                    r = _outcome(lambda: _select(cur, o["sql"], tuple(o["params"]) if o.get("params") else None))
                     res.append({"real": r})
                 else:
                     params = tuple(o["params"]) if o["op"] == "b" else None
                     r = {"real": _outcome(lambda: _select(cur, o["sql"], params))}
-                    if o["model"][0] == "ok":
-                        # the model's inlined command on a connection without variables (the same values bound, if any)
+                    if o["model"][0] == "ok" and not re.search(r"(?<!\$)\$\w", o["model"][1]):
+                        # the model's inlined command on a connection without variables (the same values bound, if any); not possible
+                        # when an inlined VALUE contains `$word` text (set through a bound parameter): the twin would scan it
                         r["twin"] = _outcome(lambda: _select(twin.cursor(), o["model"][1], params))
-                    if o["op"] == "b" and o["m_pct"] and o["m_final"][0] == "ok":
+                    if o["op"] == "b" and o["m_pct"] and o["m_final"][0] == "ok" and not re.search(r"(?<!\$)\$\w", o["m_final"][1]):
                         r["twin_final"] = _outcome(lambda: _select(twin.cursor(), o["m_final"][1]))
                     if o.get("err"):
                         # nothing may be executed: a DML carrying the same undefined reference leaves the table alone
@@ -279,10 +382,20 @@ def _judge(chk, h, res):
     if prefix_pair:
         chk.count("histories:with-prefix-pair")
     for idx, (o, r) in enumerate(zip(h["ops"], res)):
-        keep = ("op", "conn", "cur", "name", "kind", "sql", "expect", "err", "lit", "undef_item", "params", "wires")
+        keep = ("op", "conn", "cur", "name", "kind", "sql", "expect", "err", "lit", "undef_item", "params", "wires", "mirror", "rows", "models", "want")
         case = {"kind": "hist", "nconn": h["nconn"], "ops": [{k: x[k] for k in keep if k in x} for x in h["ops"][: idx + 1]], "failing_op": idx}
         real = r["real"]
         chk.count("op:" + o["op"])
+        if o.get("mirror"):
+            chk.count("q:mirror-identical-text-other-connection")
+        if o["op"] == "m":
+            want = OKROW if o["want"] == "status" else ("rows", [[("int", 1)]])
+            if real == want and all(ob.split("|")[0] == "d" or ob.startswith("ok:") for ob in o["m_obs"]):
+                chk.count("held")
+                continue
+            chk.violation(f"history #{h['id']} op {idx}: executemany(`{o['sql']}`, {o['rows']}) on connection {o['conn']} returned {_short(real)} (expected {want}); "
+                          f"model per row: {[ob.split('|')[0][:40] for ob in o['m_obs']]}", case, broken="C15_exact/C15_set (executemany = one execute per row)")
+            return
         if o["op"] in ("s", "u"):
             want = OKROW if o["model"][0] == "d" else None
             if o["model"][0] == "d" and real == OKROW:
@@ -305,9 +418,14 @@ def _judge(chk, h, res):
         # model prediction
         if o["op"] == "b":
             chk.count("q:bound")
-        if o["op"] == "b" and o["m_pct"] and o["model"][0] == "ok":
+        if o["model"][0] == "ok" and "twin" not in r and not (o["op"] == "b" and o["m_pct"]):
+            pred_ok = True          # an inlined value carries `$word` text: only the model-free oracle applies
+            chk.count("q:twin-skipped-dollar-in-value")
+        elif o["op"] == "b" and o["m_pct"] and o["model"][0] == "ok":
             # a referenced value contains `%`: the model of the code formats it together with the command
-            if o["m_final"][0] == "ok":
+            if o["m_final"][0] == "ok" and "twin_final" not in r:
+                pred_ok = True      # the final text carries `$word` inside a bound value: the twin would scan it
+            elif o["m_final"][0] == "ok":
                 pred_ok = r["twin_final"] == real or (r["twin_final"][0] == "err" and real[0] == "err" and r["twin_final"][1:4] == real[1:4])
             else:
                 pred_ok = real[0] == "err" and real[1] in ("TypeError", "ValueError", "KeyError")
